@@ -391,6 +391,9 @@ pub struct UnreadCase {
 	pub behind: u8,
 	pub buffer_capacity: u8,
 	pub lowlevel: bool,
+	/// a subscribe call is executing at stop(): its handler accepts only afterwards, when the outgoing queue is full
+	#[serde(default)]
+	pub subscribe: bool,
 }
 
 pub struct UnreadAnswer;
@@ -404,8 +407,8 @@ impl SubCheck for UnreadAnswer {
 		tier.pick(4_000, 80_000)
 	}
 	fn strategy(&self, _tier: Tier) -> BoxedStrategy<UnreadCase> {
-		(64u16..1024, 1500u16..20_000, 0u8..3, 0u8..4, prop_oneof![Just(1u8), Just(2u8), Just(64u8)], proptest::bool::weighted(0.25))
-			.prop_map(|(pipe, big, before, behind, buffer_capacity, lowlevel)| UnreadCase { pipe, big, before, behind, buffer_capacity, lowlevel })
+		(64u16..1024, 1500u16..20_000, 0u8..3, 0u8..4, prop_oneof![Just(1u8), Just(2u8), Just(64u8)], proptest::bool::weighted(0.25), any::<bool>())
+			.prop_map(|(pipe, big, before, behind, buffer_capacity, lowlevel, subscribe)| UnreadCase { pipe, big, before, behind, buffer_capacity, lowlevel, subscribe })
 			.boxed()
 	}
 	fn run(&self, case: &UnreadCase, obs: &mut Obs) {
@@ -436,8 +439,13 @@ impl SubCheck for UnreadAnswer {
 			for k in 0..case.behind {
 				let _ = ws.send_text(&format!(r#"{{"jsonrpc":"2.0","id":"b{k}","method":"echo_async","params":["b{k}"]}}"#)).await;
 			}
+			if case.subscribe {
+				let _ = ws.send_text(r#"{"jsonrpc":"2.0","id":"sub","method":"sub_a"}"#).await;
+			}
 			settle().await;
 			let started = fix.ctx.log.lock().iter().filter(|l| l.name == "big_async" || l.name == "echo_async").count();
+			let ctx = fix.ctx.clone();
+			let subscribe_started = case.subscribe && ctx.actors.lock().len() == 1;
 			let Fixture { handle, stop, methods, builder, .. } = fix;
 			let stopped_task = tokio::spawn(handle.clone().stopped());
 			let _ = handle.stop();
@@ -448,11 +456,34 @@ impl SubCheck for UnreadAnswer {
 				obs.check(!stopped_task.is_finished(), "c10/stopped-before-answers-were-written", || format!("stopped() resolved while the peer had read nothing and the pipe ({} bytes) cannot hold the {}-byte answer; {}", case.pipe, case.big, desc()));
 				obs.nontrivial();
 			}
+			// the subscribe call's handler decides now: the server is stopping, the outgoing queue may be full
+			let mut accept_ack = None;
+			if subscribe_started {
+				let tx = ctx.actors.lock()[0].tx.clone();
+				let (atx, arx) = tokio::sync::oneshot::channel();
+				let _ = tx.send((Cmd::Accept, atx));
+				accept_ack = Some(arx);
+				settle().await;
+				obs.class("subscribe-call-executing-at-stop");
+			}
 			ws.read_gate.resume();
 			settle().await;
 			let texts = ws.drain_texts();
 			let mut want: Vec<String> = vec!["big".into()];
 			want.extend((0..case.behind).map(|k| format!("b{k}")));
+			if subscribe_started {
+				want.push("sub".into());
+				// the peer stayed connected and reads: accepting succeeds
+				match accept_ack.take().map(|mut a| a.try_recv()) {
+					Some(Ok(Ack::Accepted(_))) => {}
+					other => obs.fail("c10/started-call-not-answered", format!("the handler of the subscribe call that was executing at stop() accepted, with the peer connected: {other:?}; {}", desc())),
+				}
+				// let the handler return so that the connection can finish
+				let tx = ctx.actors.lock()[0].tx.clone();
+				let (atx, _arx) = tokio::sync::oneshot::channel();
+				let _ = tx.send((Cmd::ReturnOk, atx));
+				settle().await;
+			}
 			for id in &want {
 				let got = texts.iter().filter_map(|t| serde_json::from_str::<Value>(t).ok()).find(|v| v["id"] == json!(id));
 				match got {
